@@ -32,8 +32,9 @@ stub_typename(struct scope *s, enum typequal *tq, struct expr **toeval)
 unsigned long long
 intconstexpr(struct scope *s, bool allowneg)
 {
-	unsigned j = g_nice++;
-	__CPROVER_assert(j < 2 && j + 1 == g_ntn && !g_istype[j], "the operand is evaluated as a constant expression only when it is not a type name");
+	unsigned j = g_ntn - 1;     /* the operand typename() has just declined */
+	g_nice++;
+	__CPROVER_assert(g_ntn >= 1 && j < 2 && !g_istype[j], "the operand is evaluated as a constant expression only when it is not a type name");
 	next();
 	return j < 2 ? g_val[j] : 0;
 }
